@@ -608,6 +608,151 @@ fn snippet_of(ms: &ModuleSet) -> String {
     ms.modules[0].items.iter().map(print_item).collect::<Vec<_>>().join("\n") + "\n"
 }
 
+// ---------------------------------------------------------------------------------------
+// the builder: sources of all three kinds and the output mode may be given in any order
+
+#[derive(Clone, Debug)]
+enum Op {
+    Lit(String),
+    Path(PathBuf),
+    Iter(Vec<PathBuf>),
+    Output,
+}
+
+enum St<B: Backend_> {
+    New(Compiler<B, rasn_compiler::CompilerMissingParams>),
+    Src(Compiler<B, rasn_compiler::CompilerSourcesSet>),
+    Out(Compiler<B, rasn_compiler::CompilerOutputSet>),
+    Ready(Compiler<B, rasn_compiler::CompilerReady>),
+}
+
+fn apply_op<B: Backend_>(st: St<B>, op: &Op, out: Option<&Path>) -> St<B> {
+    let mode = || match out {
+        Some(p) => OutputMode::SingleFile(p.to_path_buf()),
+        None => OutputMode::NoOutput,
+    };
+    match (st, op) {
+        (St::New(c), Op::Lit(t)) => St::Src(c.add_asn_literal(t.clone())),
+        (St::New(c), Op::Path(p)) => St::Src(c.add_asn_by_path(p.clone())),
+        (St::New(c), Op::Iter(ps)) => St::Src(c.add_asn_sources_by_path(ps.iter().cloned())),
+        (St::New(c), Op::Output) => St::Out(c.set_output_mode(mode())),
+        (St::Src(c), Op::Lit(t)) => St::Src(c.add_asn_literal(t.clone())),
+        (St::Src(c), Op::Path(p)) => St::Src(c.add_asn_by_path(p.clone())),
+        (St::Src(c), Op::Iter(ps)) => St::Src(c.add_asn_sources_by_path(ps.iter().cloned())),
+        (St::Src(c), Op::Output) => St::Ready(c.set_output_mode(mode())),
+        (St::Out(c), Op::Lit(t)) => St::Ready(c.add_asn_literal(t.clone())),
+        (St::Out(c), Op::Path(p)) => St::Ready(c.add_asn_by_path(p.clone())),
+        (St::Out(c), Op::Iter(ps)) => St::Ready(c.add_asn_sources_by_path(ps.iter().cloned())),
+        (St::Out(c), Op::Output) => St::Out(c),
+        (St::Ready(c), Op::Lit(t)) => St::Ready(c.add_asn_literal(t.clone())),
+        (St::Ready(c), Op::Path(p)) => St::Ready(c.add_asn_by_path(p.clone())),
+        (St::Ready(c), Op::Iter(ps)) => St::Ready(c.add_asn_sources_by_path(ps.iter().cloned())),
+        (St::Ready(c), Op::Output) => St::Ready(c),
+    }
+}
+
+/// None = holds; the sources are given one per module, each as literal / single path / part of a
+/// path iterator, with the output mode set at position `out_at` of the call chain
+fn builder_case<B: Backend_>(ops: &[Op], out_file: &Path) -> Option<String> {
+    // reference: the same sources, one call each, output mode last
+    let mut r = St::<B>::New(Compiler::<B, _>::new());
+    for op in ops.iter().filter(|o| !matches!(o, Op::Output)) {
+        match op {
+            Op::Iter(ps) => {
+                for p in ps {
+                    r = apply_op(r, &Op::Path(p.clone()), None);
+                }
+            }
+            o => r = apply_op(r, o, None),
+        }
+    }
+    let St::Src(rc) = r else { return None };
+    let want = comp::guarded(|| rc.compile_to_string()).ok()?;
+    let _ = std::fs::remove_file(out_file);
+    let mut st = St::<B>::New(Compiler::<B, _>::new());
+    for op in ops {
+        st = apply_op(st, op, Some(out_file));
+    }
+    let St::Ready(c) = st else { return None };
+    let got = comp::guarded(|| c.compile());
+    let written = std::fs::read_to_string(out_file).ok();
+    match (want, got) {
+        (Ok(w), Ok(Ok(_))) => match written {
+            Some(t) if t == w.generated => None,
+            Some(t) => Some(format!("the file holds {} bytes, compile_to_string() over the same sources returns {} bytes", t.len(), w.generated.len())),
+            None => Some("compile() returned Ok but wrote no file".into()),
+        },
+        (Ok(_), Ok(Err(e))) => Some(format!("compile() fails ({e}) where compile_to_string() over the same sources succeeds")),
+        (Err(_), Ok(Ok(_))) => Some("compile() succeeds where compile_to_string() over the same sources fails".into()),
+        (Err(_), Ok(Err(_))) => written.map(|_| "a failed compile() left a file behind".to_string()),
+        (_, Err(p)) => Some(format!("panic: {p}")),
+    }
+}
+
+fn builder_leg(ctx: &mut Ctx, tier: Tier, seed: u64, work: &Path) {
+    let n = tier.pick(120, 1500);
+    let mut drv = Driver::new(seed, 2020, 2500);
+    let streams: Vec<Vec<u32>> = drv.draw(n).iter().map(|t| t.current()).collect();
+    let mut reported = 0;
+    for (idx, s) in streams.iter().enumerate() {
+        let ms = gen_set(s, &GenCfg { max_modules: 4, imports: false, ..gen_cfg() });
+        let dir = work.join(format!("b{idx}"));
+        let _ = std::fs::create_dir_all(&dir);
+        let mut src = Src::new(&s[s.len() / 2..]);
+        // one op per module (a path iterator takes the following modules too), output mode anywhere
+        let texts: Vec<String> = ms.modules.iter().map(|m| print(&ModuleSet { modules: vec![m.clone()] })).collect();
+        let mut ops: Vec<Op> = vec![];
+        let mut i = 0;
+        while i < texts.len() {
+            let path = |k: usize| {
+                let p = dir.join(format!("m{k}.asn"));
+                let _ = std::fs::write(&p, &texts[k]);
+                p
+            };
+            match src.pick(3) {
+                0 => {
+                    ops.push(Op::Lit(texts[i].clone()));
+                    i += 1;
+                }
+                1 => {
+                    ops.push(Op::Path(path(i)));
+                    i += 1;
+                }
+                _ => {
+                    let k = 1 + src.pick(texts.len() - i);
+                    ops.push(Op::Iter((i..i + k).map(path).collect()));
+                    i += k;
+                }
+            }
+        }
+        let out_at = src.pick(ops.len() + 1);
+        ops.insert(out_at, Op::Output);
+        let shape: String = ops.iter().map(|o| match o { Op::Lit(_) => "literal", Op::Path(_) => "path", Op::Iter(_) => "path-iterator", Op::Output => "OUTPUT" }).collect::<Vec<_>>().join(" > ");
+        for backend in [Backend::Rasn, Backend::Ts] {
+            let out_file = dir.join(format!("out{}", backend.ext()));
+            let r = match backend {
+                Backend::Rasn => builder_case::<RasnBackend>(&ops, &out_file),
+                Backend::Ts => builder_case::<TypescriptBackend>(&ops, &out_file),
+            };
+            ctx.case(&format!("builder:{idx}:{backend:?}:{shape}"), out_at < ops.len() - 1);
+            ctx.class("leg:builder-call-order");
+            ctx.class(&format!("builder:output-mode-{}", if out_at == 0 { "first" } else if out_at == ops.len() - 1 { "last" } else { "in-between" }));
+            if let Some(d) = r {
+                ctx.class("fails:builder");
+                if reported < 3 {
+                    reported += 1;
+                    ctx.fail(Failure {
+                        finding: None,
+                        what: format!("builder calls `{shape}` ({backend:?}): {d}"),
+                        replay: json!({"kind": "c20", "clause": "builder", "calls": shape, "backend": format!("{backend:?}"), "sources": texts.iter().enumerate().map(|(k, t)| json!({"name": format!("m{k}"), "text": t})).collect::<Vec<_>>()}),
+                    });
+                }
+            }
+        }
+        let _ = std::fs::remove_dir_all(&dir);
+    }
+}
+
 pub fn run(tier: Tier, seed: u64, replay: Option<String>) -> i32 {
     let mut ctx = Ctx::new("C20", tier, seed);
     ctx.level = "fault_enumeration";
@@ -799,6 +944,9 @@ pub fn run(tier: Tier, seed: u64, replay: Option<String>) -> i32 {
     }
     if failing.is_empty() && replay.is_none() {
         failing.push("A ::= SEQUENCE { a ~ INTEGER }\n".into());
+    }
+    if replay.is_none() {
+        builder_leg(&mut ctx, tier, seed, work.path());
     }
     ctx.sample(json!({"macro_snippet": snippets.first().map(|x| &x.0), "macro_complete_module": snippets.iter().find(|x| x.1).map(|x| &x.0)}));
     if let Err(e) = macro_leg(&mut ctx, &snippets, &failing) {
